@@ -157,6 +157,31 @@ def check_C14(chk, tier, seed):
             # look the changed copy up first, then the other one (a structure shared between the copies would show)
             for did in [tgt] + [x for x in mm if x != tgt]:
                 lines.append(queries(r, mm[did], did, nops))
+    # many definitions handed to the constructor at once, a later document re-declaring pairs of an earlier one (the built-in
+    # document followed by overrides of 1, 263, 264, 268, 416, 461; two generated documents of 40 definitions of which the second
+    # re-declares every third pair of the first): the later document wins, however the constructor builds its table
+    bx0 = builtin_xml(core.REPO)
+    ov = [dict(code=c, vendor=None, name=f"Override-{c}".encode(), tyname=b"Unsigned64", must=b"M") for c in (1, 263, 264, 268, 416, 461)]
+    ov_apps = [dict(name=b"Overrides", id=4, cmds=[], avps=ov)]
+    big1 = [dict(code=20000 + j, vendor=(None if j % 3 else 10415), name=f"Big-{j}".encode(), tyname=b"Unsigned32", must=None) for j in range(40)]
+    big2 = [dict(code=20000 + j, vendor=(None if j % 3 else 10415), name=f"Big2-{j}".encode(), tyname=b"UTF8String", must=b"M") for j in range(0, 40, 3)] + \
+           [dict(code=21000 + j, vendor=None, name=f"Big2-new-{j}".encode(), tyname=b"OctetString", must=None) for j in range(25)]
+    a1, a2 = [dict(name=b"Big-One", id=4, cmds=[], avps=big1)], [dict(name=b"Big-Two", id=4, cmds=[], avps=big2)]
+    for did, docs in (("lead-b", [(bx0, None), (gen_xml(ov_apps), ov_apps)]), ("lead-g", [(gen_xml(a1), a1), (gen_xml(a2), a2)]), ("lead-3", [(gen_xml(a1), a1), (bx0, None), (gen_xml(a2), a2), (gen_xml(ov_apps), ov_apps)])):
+        mm3 = MapModel()
+        for (x, ap) in docs:
+            mm3.load(xml_apps(x) if ap is None else ap)
+        lines.append(("D", dict_line(did, [load_toks(x, ap) for (x, ap) in docs]), None))
+        qs, want = [], []
+        keys = [(c, None) for c in (1, 263, 264, 268, 416, 461, 258, 296)] + [(20000 + j, (None if j % 3 else 10415)) for j in range(0, 40, 5)] + [(21003, None), (20001, 10415)]
+        for (c, v) in keys:
+            qs.append(f"AVP {hx(c)} {opt(v)}")
+            d = mm3.avps.get((c, v))
+            want.append(("avp", fmt_def(d) if d else "none"))
+        for n in (b"Override-264", b"Origin-Host", b"Big-3", b"Big2-3", b"Big-4"):
+            qs.append(f"NAME {xb(n)}")
+            want.append(("name", sorted(fmt_def(d) for d in mm3.avps.values() if d["name"] == n)))
+        lines.append(("Q", f"Q {did} {len(qs)} " + " ".join(qs), (want, len(docs), len(mm3.avps))))
     # the library's process-wide DEFAULT_DICT is public and mutable; what a program does to it must not show in dictionaries
     # created afterwards from documents (the built-in document included): a dictionary is what was loaded into IT
     bx = builtin_xml(core.REPO)
@@ -179,6 +204,16 @@ def check_C14(chk, tier, seed):
             qs.append(f"NAME {xb(n)}")
             want.append(("name", sorted(fmt_def(d) for d in mm2.avps.values() if d["name"] == n)))
         lines.append(("Q", f"Q {did} {len(qs)} " + " ".join(qs), (want, 2, len(mm2.avps))))
+    # ... and a program that tried to load a malformed document into DEFAULT_DICT (the loader panics holding the lock, which
+    # poisons it): dictionaries created from documents afterwards are what their documents say
+    lines.append(("D", "DGLOBALPOISON", None))
+    lines.append(("D", dict_line("gbp", [load_toks(bx)]), None))
+    qs, want = [], []
+    for (c, v) in [(264, None), (263, None), (59999, None)]:
+        qs.append(f"AVP {hx(c)} {opt(v)}")
+        d = bm.avps.get((c, v))
+        want.append(("avp", fmt_def(d) if d else "none"))
+    lines.append(("Q", f"Q gbp {len(qs)} " + " ".join(qs), (want, 2, len(bm.avps))))
     cases = [l[1] for l in lines]
     # dictionaries are per-process state: keep each history in one shard by running unsharded batches
     impl = core.run_sharded([eng.harness, "codec"], eng.prelude, cases, shards=1, timeout=1800)
@@ -348,6 +383,30 @@ def check_C15(chk, tier, seed):
             for (c, wv, ty) in ((5000, None, "u32"), (5000, velem, None), (5001, velem, "utf"), (5001, None, None)):
                 cases.append(f"X {did} {xb(one_avp_frame(c, wv, SAMPLE_DATA[ty or 'u32']))}")
                 expect.append(("scope", ty, f"definition {c} in an application with <vendor id={velem}> (must-not {must_not})", "attr", wv))
+    # definitions that list enumeration <item>s under a type that is not Enumerated (or not recognised at all): the items are
+    # documentation - the data type attribute types the AVP
+    for tyname, ty in [("Unsigned32", "u32"), ("Integer32", "i32"), ("Unsigned64", "u64"), ("UTF8String", "utf"), ("Enumerated", "en"), ("OctetString", "oct"), ("Unsigned16", None), ("", None)]:
+        for scope in (None, 10415):
+            did = f"t{k}"
+            k += 1
+            apps = [dict(name=b"GenApp", id=4, cmds=[], avps=[dict(code=5000, vendor=scope, name=b"With-Items", tyname=tyname.encode(), must=None, items=[(1, b"ONE"), (2, b"TWO")]),
+                                                                 dict(code=5001, vendor=scope, name=b"Plain-Enum", tyname=b"Enumerated", must=None)])]
+            prelude.append(dict_line(did, [load_toks(gen_xml(apps), apps)]))
+            cases.append(f"X {did} {xb(one_avp_frame(5000, scope, SAMPLE_DATA[ty or 'u32']))}")
+            expect.append(("scope", ty, f"'{tyname}' with <item> children", scope, scope))
+            cases.append(f"X {did} {xb(one_avp_frame(5001, scope, SAMPLE_DATA['en']))}")
+            expect.append(("scope", "en", "Enumerated without <item> children", scope, scope))
+    # an IPv4-typed entry with a payload of IPv6 size and the other way round (and other sizes): the ENTRY decides the kind - the
+    # value comes back as the declared kind or the frame is refused, never as the kind the payload size suggests
+    did = f"t{k}"
+    k += 1
+    apps = [dict(name=b"GenApp", id=4, cmds=[], avps=[dict(code=5000, vendor=None, name=b"V4", tyname=b"IPv4", must=None), dict(code=5001, vendor=None, name=b"V6", tyname=b"IPv6", must=None),
+                                                         dict(code=5002, vendor=None, name=b"U32", tyname=b"Unsigned32", must=None), dict(code=5003, vendor=None, name=b"U64", tyname=b"Unsigned64", must=None)])]
+    prelude.append(dict_line(did, [load_toks(gen_xml(apps), apps)]))
+    for code, ty in ((5000, "ip4"), (5001, "ip6"), (5002, "u32"), (5003, "u64")):
+        for n in (4, 8, 16):
+            cases.append(f"X {did} {xb(one_avp_frame(code, None, bytes(range(1, n + 1))))}")
+            expect.append(("kind-or-refuse", ty, f"entry of type {TY_XML_NAME[ty]} with a {n}-octet payload", None, None))
     # a dictionary that is used and THEN extended in place: after every extension a wire AVP is typed by the entry its pair has
     # now (a new pair is known, a re-declared pair has its new type), whatever was decoded under the dictionary before
     grow_cases, grow_expect = [], []
@@ -480,7 +539,14 @@ def check_C15(chk, tier, seed):
             if im != "OK":
                 chk.violation("a dictionary could not be created / extended: " + short(im, 200), dict(case=c, impl=short(im)))
             continue
-        if ex[0] in ("scope", "nested", "nested2"):
+        if ex[0] == "kind-or-refuse":
+            if im.startswith("OK "):
+                a = parse_result(im)["msg"]["avps"][0]
+                kind = KIND_TY.get(a["val"][1]) if a["val"][0] == "L" else "grp"
+                if kind != ex[1]:
+                    ok = False
+                    chk.violation(f"{ex[2]}: the value came back as kind {kind}; the entry decides the kind, not the size of the payload", dict(case=c, impl=short(im, 1000)))
+        elif ex[0] in ("scope", "nested", "nested2"):
             _, ty, tyname, scope, wire_v = ex
             want_ok = ty is not None and ty != "unk"
             if im.startswith("OK ") != want_ok:
@@ -545,15 +611,20 @@ def check_C16(chk, tier, seed):
         dicts[did] = eng.dicts[did].live()
     eng.prelude = prelude
     cases, expect = [], []
+    starts = {}
     for did, defs in dicts.items():
         names = {}
         for d in defs:
             names.setdefault(d["name"], []).append(d)
-        for nm, ds in sorted(names.items()):
+        for j, (nm, ds) in enumerate(sorted(names.items())):
             ty = ds[0]["ty"]
             v = ("L", SAMPLE_LEAF.get(ty, SAMPLE_LEAF["u32"])) if ty != "grp" else ("GN", [])
-            cases.append(hist_line(did, ("NEW", 272, 4, 0x80, 1, 2), [("ADDNAME", nm, v)]))
+            # the message's command and application vary (Gx, Rx, Sy, accounting, base, ...): what a name resolves to is decided by
+            # the message's dictionary, not by which application's section of a document declared it
+            start = ("NEW", gen.CMDS[j % len(gen.CMDS)], gen.APPS[(j // 2) % len(gen.APPS)], [0x80, 0, 0x40][j % 3], 1 + j, 2)
+            cases.append(hist_line(did, start, [("ADDNAME", nm, v)]))
             expect.append(("byname", ds, v, did))
+            starts[len(cases) - 1] = start
             # the value given need not be of the declared type (the builder does not consult it): a narrower / related kind
             # must be carried exactly as given, as it is when the AVP is built from explicit numbers
             other = {"u64": "u32", "i64": "i32", "f64": "f32", "ip6": "ip4", "addr": "ip4", "id": "utf", "uri": "oct", "u32": "u64", "i32": "en",
@@ -678,7 +749,7 @@ def check_C16(chk, tier, seed):
         if ex[0] == "byname":
             ds, v, did = ex[1], ex[2], ex[3]
             for d in ds:
-                ref_lines.append(hist_line(did, ("NEW", 272, 4, 0x80, 1, 2), [("ADDAVP", d["code"], d["vendor"], 0x40 if d["m"] else 0, v)]))
+                ref_lines.append(hist_line(did, starts.get(i, ("NEW", 272, 4, 0x80, 1, 2)), [("ADDAVP", d["code"], d["vendor"], 0x40 if d["m"] else 0, v)]))
                 ref_idx.append(i)
         else:
             ref_lines.append(ex[1])
